@@ -15,6 +15,8 @@ CLAIMED["C03"] = ("other", "Structural necessary conditions of WAL capture decid
   "CFG path rules, origin rendering, SSA def-use chain check of the cumulative checksum, index-bound guard over go/ssa")
 CLAIMED["C01"] = ("other", "Structural invariants of the replication pipeline decided on every path: position set only after pages, file verification, resize and the post-apply checksum comparison; kernel-cache invalidation on every replica-side change and its wiring; every subscriber notified after every position change; stream-loop dirty-set handling (subscribe before positions, initial set, positions only from what was sent); replica dispatch covering every frame type; replica apply under the write lock after publication. Does NOT decide byte identity of images or convergence time.", "DESIGN.md section 4 C01",
   "CFG path rules, origin rendering, who-may-call/write tables, mutex-held rule, frame-type table over go/ssa")
+CLAIMED["C06"] = ("other", "TXIDs and checksums are touched only through comparisons: the divergence handling is a finite decision table extracted by enumerating every feasible path (phis and local struct cells resolved per path) and compared with the confirmed tables on the primary (streamDB, streamLTX), the replica (processLTXStreamFrame, position read under the write lock) and the forwarding side (WriteLTXFileAt), plus chain reset on snapshots. Does NOT decide fork detection probability (checksum collisions) or end-state byte identity.", "DESIGN.md section 4 C06",
+  "decision-table extraction by path enumeration with phi/cell resolution, CFG guarded-by / no-path rules, origin rendering over go/ssa")
 REASONS = {}
 def main():
     checks=[]
